@@ -344,7 +344,7 @@ def _gen_heat(rng, max_junctions, sorted_labels, kinds, big_labels):
     fl, rl = jl[:k + 1], jl[k + 1:]
     cnt = _Counter(rng, sorted_labels)
     all_kinds = ["hc_modes", "heat_exchanger", "circ_mass", "sections", "ext_grid_feed", "valve",
-                 "flow_control", "closed_valve", "standby"]
+                 "flow_control", "closed_valve", "standby", "no_tflow"]
     if kinds is None:
         kinds = set(rng.sample(all_kinds, rng.randint(0, len(all_kinds))))
     else:
@@ -373,6 +373,9 @@ def _gen_heat(rng, max_junctions, sorted_labels, kinds, big_labels):
     hc_mode_pool = ["mdot_q"]
     if "hc_modes" in kinds:
         hc_mode_pool = ["mdot_q", "mdot_dt", "mdot_tr", "q_dt", "q_tr"]
+    no_tflow = "no_tflow" in kinds and rng.random() < 0.3
+    if no_tflow:
+        hc_mode_pool = [m_ for m_ in hc_mode_pool if m_.startswith("mdot")]
     for i in range(0 if k == 0 else 1, k + 1):
         a, b = fl[i], rl[i]
         if "heat_exchanger" in kinds and rng.random() < 0.3 and i != k:
@@ -434,9 +437,14 @@ def _gen_heat(rng, max_junctions, sorted_labels, kinds, big_labels):
             meta["toggles"].append(("valve", bypass, "opened"))
             if "closed_valve" in kinds and rng.random() < 0.5:
                 ops[[i for i, o in enumerate(ops) if o["fn"] == "create_valve"][0]]["kw"]["opened"] = False
+    if no_tflow:
+        # a circulation pump without flow temperature (type "p"): such a loop has no temperature source, it is a
+        # hydraulics-only world (the pump's outlet temperature is taken over from its flow junction)
+        ops[-1]["kw"].pop("t_flow_k", None)
+        meta["thermal"] = False
     if "standby" in kinds:
         # an idle second circulation pump next to the running one (created before or after it)
-        feed = ops[-1]
+        feed = [o for o in ops if o["fn"].startswith("create_circ_pump")][-1]
         kw = dict(feed["kw"])
         t_ = "circ_pump_mass" if feed["fn"] == "create_circ_pump_const_mass_flow" else "circ_pump_pressure"
         kw["index"] = cnt.new(t_)
@@ -447,10 +455,11 @@ def _gen_heat(rng, max_junctions, sorted_labels, kinds, big_labels):
             kw["mdot_flow_kg_per_s"] = round(kw["mdot_flow_kg_per_s"] * 1.5, 3)
         if rng.random() < 0.4:
             kw.pop("t_flow_k", None)
-        ops.insert(len(ops) - 1 if rng.random() < 0.5 else len(ops), {"fn": feed["fn"], "kw": kw})
+        pos = ops.index(feed)
+        ops.insert(pos if rng.random() < 0.5 else pos + 1, {"fn": feed["fn"], "kw": kw})
     for (t, i) in meta["branches"]:
         if t == "heat_consumer" and len(consumers) > 1:
             meta["toggles"].append(("heat_consumer", i, "in_service"))
-    meta["needs_bidirectional"] = any(m in ("q_dt", "q_tr") for (_, m) in consumers)
+    meta["needs_bidirectional"] = any(m in ("q_dt", "q_tr") for (_, m) in consumers) and meta["thermal"]
     program = {"fluid": "water", "name": "gen-heat", "ops": ops}
     return program, meta
